@@ -41,6 +41,16 @@ HAND = [
     # the disk thread runs its event loop (process_callbacks forever)
     ("P:0:0 R:0 D / LOOP", ["000" + "1111" + "0" * 6 + "1" * 10 + "0" * 10, "0001111" + "01" * 20, "01" * 40]),
     ("P:0:0 P:1:0 D R:0 P:2:1 D R:1 D / LOOP", ["01" * 80, "0011" * 40, "000111" * 25]),
+    # the three blocking points of the main thread with the looping disk thread (coq/C18/ProofsG.v examples; theorem
+    # hashing_handoff_no_deadlock): hq_wait with the flag clear; remove's probe / work()'s pop while chunk_done holds
+    # m_done_chunks_lock - main is tried while blocked (logged "0:-"), then 1..4 disk steps, then main again
+    ("P:0:0 R:0 D / LOOP", ["00011100" + "00" + d + "0" * 8 + "01" * 20 for d in ("1", "11", "111", "1111")]),
+    ("P:0:0 R:0 D / LOOP", ["00011110" + "00" + d + "0" * 8 + "01" * 20 for d in ("1", "11", "111")]),
+    ("P:0:0 D D / LOOP", ["0001111100" + "00" + d + "0" * 8 + "01" * 20 for d in ("1", "11", "111")]),
+    (deep(5) + " R:0 D D / LOOP", ["0" * 7 + "111" + "00" * 2 + "0" + "1" + "00" + "1" + "00" + "1" + "00" + "1" + "00" + "01" * 60,
+                                   "0" * 7 + "1111" + "000" + "1" + "0" + "1" + "00" + "1111" + "00" + "01" * 60]),
+    (deep(3) + " D P:3:1 R:1 R:0 D D / LOOP", ["0" * 5 + "11111" + "000" + "1" + "000" + "1111" + "000" + "01" * 80,
+                                               "0" * 5 + "1" * 9 + "0000" + "1" + "0000" + "1" + "000" + "01" * 80]),
     ("P:0:0 R:0 D / D", ["000" + "1111" + "0" * 6 + "1" * 10 + "0" * 10, "0001111" + "01" * 20, "000" + "1" * 20 + "0" * 20]),
     ("P:0:1 P:1:1 D R:1 D / D D", ["000" + "1" * 12 + "0" * 12 + "1" * 8 + "0" * 8, "01" * 40]),
     ("P:0:0 P:1:0 P:2:1 R:0 D D / D D D", ["01" * 60, "0011" * 30, "000111" * 20, "0" * 9 + "1" * 30 + "0" * 30]),
